@@ -56,3 +56,82 @@ Theorem opt_record_is_set_aside_in_order :
                         pop_edns0 ex = (Some o, pre ++ post)).
 Proof. exact pop_edns0_spec. Qed.
 
+
+(* ---------------- the truncated message fits ---------------- *)
+(* (proofs in Proofs/TruncateFitProofs.v, on top of C08's Len() >= len(Pack()))
+
+   [msg_len] is Msg.Len() under the message's own compression setting;
+   [trunc_size size] = max(size, MinMsgSize);
+   [set_aside m] is the OPT record popEdns0 removes, [set_aside_ok m] asks of it
+   that its len() walks no name but the owner's (true of the kind OPT) and that
+   the owner name has no label start that is a lone backslash (true of the root);
+   [fixed_part m] is what Truncate cannot drop: header + question section
+   (measured with the compression set, as Truncate does) + Len(OPT). *)
+From Dns Require Import Proofs.LenFieldProofs Proofs.LenMsgProofs Proofs.LenCompressMsgProofs Proofs.TruncateFitProofs.
+Open Scope list_scope.
+
+(* the length truncateLoop accumulates IS the Len() of what Truncate leaves:
+   same folds over the kept prefixes, same offsets, same suffix set; the OPT is
+   budgeted by its uncompressed Len, which its Len at the real offset never
+   exceeds.  Hence Len() of the result is at most max(size, 512) — or the fixed
+   part, when that alone is larger *)
+Theorem truncated_len_is_bounded :
+  forall (m : msg) (size : Z),
+    has_tsig m = false -> set_aside_ok m = true ->
+    (Z.of_N (msg_len (truncate m size)) <= Z.max (trunc_size size) (fixed_part m))%Z.
+Proof. exact truncate_len_bound. Qed.
+Print Assumptions truncated_len_is_bounded.
+
+Theorem truncated_len_fits :
+  forall (m : msg) (size : Z),
+    has_tsig m = false -> set_aside_ok m = true -> (fixed_part m <= trunc_size size)%Z ->
+    (Z.of_N (msg_len (truncate m size)) <= trunc_size size)%Z.
+Proof. exact truncate_len_fits. Qed.
+Print Assumptions truncated_len_fits.
+
+(* the clause of C09: the packed message fits in max(size, 512)
+   ([msg_okb2]: see Props/C08.v) *)
+Theorem truncated_message_fits_when_packed :
+  forall (m : msg) (size : Z) (w : bytes),
+    has_tsig m = false -> set_aside_ok m = true -> (fixed_part m <= trunc_size size)%Z ->
+    msg_okb2 (truncate m size) = true -> pack_msg (truncate m size) = Ok w ->
+    (Z.of_N (lenN w) <= trunc_size size)%Z.
+Proof. exact truncated_message_fits. Qed.
+Print Assumptions truncated_message_fits_when_packed.
+
+Theorem truncated_message_is_bounded_when_packed :
+  forall (m : msg) (size : Z) (w : bytes),
+    has_tsig m = false -> set_aside_ok m = true ->
+    msg_okb2 (truncate m size) = true -> pack_msg (truncate m size) = Ok w ->
+    (Z.of_N (lenN w) <= Z.max (trunc_size size) (fixed_part m))%Z.
+Proof. exact truncated_message_bound. Qed.
+Print Assumptions truncated_message_is_bounded_when_packed.
+
+(* the hypothesis on the fixed part cannot be dropped: a question plus an OPT
+   record with 500 octets of padding is 544 octets; Truncate(512) removes every
+   answer and the message still measures and packs to 544 *)
+Theorem truncate_cannot_always_fit :
+  has_tsig t_padded = false /\ set_aside_ok t_padded = true /\ msg_okb2 (truncate t_padded 512) = true /\
+  m_answer (truncate t_padded 512) = [] /\ fixed_part t_padded = 544%Z /\
+  msg_len (truncate t_padded 512) = 544 /\
+  (exists w, pack_msg (truncate t_padded 512) = Ok w /\ lenN w = 544).
+Proof. exact truncate_len_fits_refuted. Qed.
+Print Assumptions truncate_cannot_always_fit.
+
+(* nor the one on the OPT owner name: with a lone backslash after the last dot
+   the compressed estimate of a name exceeds the plain one *)
+Theorem compressed_name_estimate_can_exceed_plain :
+  fst (domain_name_len [97; 46; 92] 0 (Some [[92]]) true) = 4 /\ name_est [97; 46; 92] = 3.
+Proof. exact dnl_le_plain_refuted. Qed.
+Print Assumptions compressed_name_estimate_can_exceed_plain.
+
+(* non-vacuity: three 200-octet TXT answers and an OPT, Truncate(512): one answer
+   is lost, TC is set, Len() drops from 722 to 474 and Pack gives 474 octets *)
+Example ex_truncate_three_answers :
+  has_tsig t_three = false /\ set_aside_ok t_three = true /\ (fixed_part t_three <= trunc_size 512)%Z /\
+  msg_len t_three = 722 /\
+  length (m_answer (truncate t_three 512)) = 2%nat /\ length (m_extra (truncate t_three 512)) = 1%nat /\
+  m_tc (truncate t_three 512) = true /\ msg_len (truncate t_three 512) = 474 /\
+  msg_okb2 (truncate t_three 512) = true /\
+  (exists w, pack_msg (truncate t_three 512) = Ok w /\ lenN w = 474).
+Proof. exact t_three_facts. Qed.
